@@ -83,7 +83,7 @@ def nondata(o, depth=0):
     if depth > 60 or isinstance(o, (str, bytes)):
         return None
     m = getattr(o, "meta", None)
-    if m is not None and not callable(m):
+    if isinstance(m, R["IM"]):
         r = nondata(m, depth + 1)
         if r:
             return r
@@ -500,9 +500,13 @@ def _replay_blocks(args):
     return n, nontriv, bad
 
 
-def _pool(n=16):
+POOL = int(os.environ.get("VERIF_POOL") or 16)            # process pool size (shared machine: VERIF_POOL=4)
+TLCW = int(os.environ.get("VERIF_TLC_WORKERS") or 16)     # cap on TLC worker threads per job
+
+
+def _pool(n=None):
     import multiprocessing
-    return multiprocessing.get_context("fork").Pool(n)
+    return multiprocessing.get_context("fork").Pool(n or POOL)
 
 
 class Bg:
@@ -515,6 +519,7 @@ class Bg:
 
         def go():
             try:
+                kw["workers"] = min(kw.get("workers", 16), TLCW)
                 self.r = tlc.run(module, cfg, **kw)
             except BaseException as e:  # noqa
                 self.err = e
@@ -578,11 +583,17 @@ def report(chk, d, direction):
 SYMS = ["foo", "bar", "x'", "+", "->", "a.b/c", "*e*", "nil", "true", "false", "é", "&", "%", "%1", ".m", "x#y"]
 KWS = [":a", ":b/c", "::loc", ":k1", ":7"]
 NUMS = ["0", "1", "42", "-7", "1.5", "2/3", "1e3", "0x1F", "7N", "2.5M", "017", "##Inf", "3J"]
-STRS = ['""', '"a b"', '"x\\ny"', '"q\\"r"', '"é中😀"', '"\\u00e9z"', '"l1\nl2"', '"(;"']
+STRS = ['"\\u6a91090e"', '""', '"a b"', '"x\\ny"', '"q\\"r"', '"é中😀"', '"\\u00e9z"', '"l1\nl2"', '"(;"']
 CHARS = ["\\a", "\\newline", "\\(", "\\u00e9", "\\é", "\\space"]
 MISC = ['#"a+b"', '#"[a-z]\\d"', '#uuid "6f3e1a2c-1b2d-4c3e-8f9a-0b1c2d3e4f5a"', '#inst "2020-01-02T03:04:05Z"',
         "#py []", "#py {:a 1}", "#queue [1 2]", "#queue ()", '#b "ab\\x00c"', "#'foo", "#?(:lpy 1 :default 2)",
         "#_skipped", "#_(a b)", "; note\n", "#!shebang\n", "#g/tag 1"]
+
+
+# always part of the corpus (tags with data readers, escapes, namespaced maps)
+FIXED_PROGRAMS = ['#queue [1]', '#queue 1', '#inst "2020-01-02T03:04:05Z"', '#inst 1', '#uuid 1', '#py [1 {:a 2}]',
+                  '#true 1', '"\\u6a91090e"', '"\\u00e9"', '#b "a\\x41"', '#b "\xe9"', '#:a{:b 1 c 2}', '#::{:b 1}',
+                  "^:m ^{:k 1} [a]", "#(+ % %2)", "`(a ~b ~@c d#)", "#'foo/bar", "##Inf", "#_#_a b c"]
 
 
 class Gen:
@@ -724,7 +735,8 @@ def trace_job(chk, pool, name, texts_cuts):
         nreads += sum(1 for x in v if x) + len(probs)
     chk.count(nreads, traces=nreads)
     path = tlc.write_json("c16_" + name, recs)
-    r = tlc.run("Reader_Trace", "Reader_Trace.cfg", env={"TRACE_FILE": path}, timeout=3000, heap="6g")
+    r = tlc.run("Reader_Trace", "Reader_Trace.cfg", env={"TRACE_FILE": path}, timeout=3000, heap="6g",
+                workers=TLCW)
     chk.add_tlc("Reader_Trace/" + name, r)
     os.unlink(path)
     if r.violated or not r.ok:
@@ -774,6 +786,7 @@ def code_to_spec(chk, pool):
         if p not in seen and len(p) <= 90:
             seen.add(p)
             progs.append(p)
+    progs += [q for q in FIXED_PROGRAMS if q not in seen]
     # grammar programs: every prefix, and single-character edits (observed at the end only)
     tc = [(p, list(range(len(p) + 1))) for p in progs]
     for p in progs:
@@ -832,6 +845,8 @@ def run(chk):
     finally:
         pool.close()
         pool.join()
+    # the replay written per signature is the first discrepancy with it: make that the shortest text
+    chk.discrepancies.sort(key=lambda d: (len(d["case"].get("text") or ""), d["case"].get("text") or ""))
     chk.exhaustive = True
 
 
